@@ -75,8 +75,18 @@ STRENGTHENED.update({
     "C20-6": "missed at first: every didChange carried one content change; 1 in 4 now carries an earlier, superseded text before the current one",
 })
 
+STRENGTHENED.update({
+    # fourth round
+    "C01-7": "missed at first: inside a copy `self` only stood in operands, format arguments and templates; `self` used only as the base of an inner copy (base{k = self{k2 = v}.k}) added to proggen",
+    "C09-7": "missed by C09 at first (C16's same-named siblings caught it): a decoy leaf.ucg of another shape is now written next to the entry file whenever the project has the twins that import their own ./leaf.ucg",
+    "C15-7": "missed at first: includes were only built in strict mode; every C15 case is now judged in strict mode and again under --no-strict",
+    "C17-7": "missed at first: the only failed cast was int(\"x\"); failed casts to float and to bool inside an int cast added",
+})
+
 # changes that are not caught by the check of their property, and why
 NOT_CAUGHT = {
+    "C13-7": "no longer manifests on the current tree: repairs ec2f5e3 / 5cf8b0c (found by the C13 generator extended in this round, before this change arrived) make every tested file evaluate its imports itself, so a value cached by an earlier build is never served; its demonstration passes on HEAD + patch.current.diff",
+    "C16-7": "no longer manifests as a C16 violation on the current tree: after repair 5cf8b0c imports are evaluated per entry-file build, so the cache hit the change needs never crosses files (its demonstration passes on HEAD + patch). The demonstration did show that the intermediate repair afa4408 was wrong (Z.ucg succeeded in a batch and failed alone); the C16 generator extended with libraries that have both an out and a module with an out fails on afa4408 too (regressions/C16/cached-import-skips-library-out-lock.json)",
     "C02-6": "changes evaluation in the translator, not the parse tree C02 observes; caught by C01",
     "C02-4": "changes evaluation, not the parse tree C02 observes (`ucglib::parse::parse`); caught by C01 (compiled evaluation vs reference semantics)",
     "C17-3": "no longer manifests on the current tree: repair d250689 re-anchors the diagnostic for a call argument at the argument, which neutralises this change for its trigger (its demonstration passes on HEAD + patch); it was caught by C17 (`wrong-argument-type`) before that repair",
@@ -84,7 +94,7 @@ NOT_CAUGHT = {
 }
 
 conf = {}
-for logname, offset in (("confirm.log", 0), ("confirm2.log", 2), ("confirm3.log", 4)):
+for logname, offset in (("confirm.log", 0), ("confirm2.log", 2), ("confirm3.log", 4), ("confirm4.log", 6)):
     lp = os.path.join(ROOT, "seeded", logname)
     if not os.path.exists(lp):
         continue
@@ -121,7 +131,7 @@ for d in sorted(glob.glob(os.path.join(ROOT, "seeded", "C*-*"))):
         "patch": "patch.diff (applies to %s)" % BASE + ("; patch.current.diff is the same edit ported onto the current /repo HEAD, whose repairs touched the same lines" if os.path.exists(os.path.join(d, "patch.current.diff")) else "; also applies to the current /repo HEAD"),
         "demonstration": demo[0] if demo else None,
         "confirmed": dict(
-            how="confirm_seed.sh / confirm_seed2.sh / confirm_seed3.sh: scratch worktree of %s outside /repo and /verif; demonstration on the clean tree, patch applied, `cargo test --offline --no-fail-fast`, demonstration on the changed tree; worktree removed afterwards" % BASE,
+            how="confirm_seed.sh / confirm_seed2.sh / confirm_seed3.sh / confirm_seed4.sh: scratch worktree of %s outside /repo and /verif; demonstration on the clean tree, patch applied, `cargo test --offline --no-fail-fast`, demonstration on the changed tree; worktree removed afterwards" % BASE,
             **conf.get(name, {}),
         ),
         "check_result": dict(
@@ -129,7 +139,7 @@ for d in sorted(glob.glob(os.path.join(ROOT, "seeded", "C*-*"))):
             **{k: res[k] for k in ("patch", "exit_code", "violations", "first_signature", "wall_seconds", "caught") if k in res},
         ),
     }
-    meta["round"] = {"43edbb9": 1, "7625054": 2}.get(BASE, 3)
+    meta["round"] = {"43edbb9": 1, "7625054": 2, "34541be": 4}.get(BASE, 3)
     for k in ("caught_by_other_check",):
         if k in res:
             meta["check_result"][k] = res[k]
